@@ -52,3 +52,23 @@ def project_poses(df):
         out.append({"x": x, "s": s, "c": [x[i] + s[i] for i in range(3)], "r": geo.matrix_to_code(m, 1e-9),
                     "t": int(round(row["tomo_id"]))})
     return out, worst
+
+
+def vary_index(df, k):
+    """The same table with another row index: a particle list handed to cryoCAT may be a sorted, sampled or filtered
+    DataFrame whose labels are not 0..N-1 (k % 4: 0, 1 default; 2 permuted labels; 3 gapped, unsorted labels)."""
+    n = len(df)
+    mode = k % 4
+    if n == 0 or mode < 2:
+        return df
+    out = df.copy()
+    if mode == 2:
+        labels = [(i * 7 + k) % n for i in range(n)] if n % 7 else [(i * 11 + k) % n for i in range(n)]
+        if len(set(labels)) != n:
+            labels = list(range(n - 1, -1, -1))
+    else:
+        labels = [100 + 3 * ((i * 5 + k) % n) for i in range(n)] if n % 5 else [100 + 3 * ((i * 3 + k) % n) for i in range(n)]
+        if len(set(labels)) != n:
+            labels = [100 + 3 * i for i in range(n)]
+    out.index = labels
+    return out
